@@ -351,3 +351,37 @@ func TestWitness_C16_ResetAlive(t *testing.T) {
 		}
 	}
 }
+
+// C20/C07: Next on a closed or finished query panics on every call, with and without ark_debug.
+func TestWitness_C20_NextAfterClose(t *testing.T) {
+	w := ecs.NewWorld(4)
+	mapA := ecs.NewMap1[compA](w)
+	for i := 0; i < 3; i++ {
+		mapA.NewEntity(&compA{int64(i)})
+	}
+	f := ecs.NewFilter1[compA](w)
+	// closed manually in the middle of a table
+	q := f.Query()
+	if !q.Next() {
+		t.Fatal("expected an entity")
+	}
+	q.Close()
+	mustPanic(t, "Next after manual Close", func() { q.Next() })
+	mustPanic(t, "second Next after manual Close", func() { q.Next() })
+	mustPanic(t, "third Next after manual Close", func() { q.Next() })
+	// finished by iteration
+	q2 := f.Query()
+	for q2.Next() {
+	}
+	mustPanic(t, "Next after exhaustion", func() { q2.Next() })
+	mustPanic(t, "second Next after exhaustion", func() { q2.Next() })
+	// unsafe query
+	uq := ecs.NewUnsafeFilter(w, ecs.ComponentID[compA](w)).Query()
+	uq.Next()
+	uq.Close()
+	mustPanic(t, "unsafe Next after Close", func() { uq.Next() })
+	mustPanic(t, "unsafe second Next after Close", func() { uq.Next() })
+	if w.IsLocked() {
+		t.Fatal("world locked")
+	}
+}
